@@ -38,6 +38,7 @@ func c14(c *core.Check) {
 	c14Counts(c)
 	c14Bookmarks(c)
 	c14Radial(c)
+	c14Dashes(c)
 	r6 := c.Rule("R6", "no call passes two same-typed arguments under each other's parameter names (swapped arguments): every pair of arguments named after the callee's parameters is aligned with them", 50)
 	argNameRule(c, r6, "html/document", map[string]bool{"document.go": true, "draw.go": true}, 45)
 	argNameRule(c, r6, "images", nil, 20)
@@ -691,21 +692,7 @@ func c14Counts(c *core.Check) {
 	for _, pkg := range []string{"html/layout", "html/document", "images", "svg", "text/draw", "backend"} {
 		for _, fn := range p.FuncsOfPkg(pkg) {
 			for _, b := range floatCountDivs(fn) {
-				y := b.Y
-				for {
-					if cv, ok := y.(*ssa.Convert); ok {
-						y = cv.X
-						if bt, ok := y.Type().Underlying().(*types.Basic); ok && bt.Info()&types.IsInteger != 0 {
-							break
-						}
-						continue
-					}
-					if ct, ok := y.(*ssa.ChangeType); ok {
-						y = ct.X
-						continue
-					}
-					break
-				}
+				y := countFactor(b.Y, 0)
 				key := core.FuncName(fn) + " | " + opText(p, fn, b)
 				t0 := time.Now()
 				ok, how := p.CountNonZero(fn, b, y)
@@ -834,5 +821,29 @@ func c14Radial(c *core.Check) {
 	})
 	if n == 0 {
 		r.Anchor("RadialGradient.Layout: division by a radius")
+	}
+}
+
+// c14Dashes: a dash pattern of total length zero is a solid line, and no offset is reduced modulo zero.
+func c14Dashes(c *core.Check) {
+	p := c.Prog
+	r := c.Rule("R10", "dash patterns: in svg.resolveDashes the dash offset is reduced modulo the total length of the pattern only when that length is not zero (an all-zero stroke-dasharray is a solid line; 0/0 would hand NaN to SetDash)", 1)
+	fn := p.Method("svg", "drawingDims", "resolveDashes")
+	if fn == nil {
+		r.Anchor("svg.drawingDims.resolveDashes")
+		return
+	}
+	n := 0
+	core.Instrs(fn, func(in ssa.Instruction) {
+		call, ok := in.(*ssa.Call)
+		if !ok || call.Call.StaticCallee() == nil || call.Call.StaticCallee().Name() != "clampModulo" || len(call.Call.Args) != 2 {
+			return
+		}
+		n++
+		ok2, how := core.NonZeroAt(fn, call, call.Call.Args[1])
+		r.Cond(ok2, "svg.resolveDashes | clampModulo(offset, dashesLength)", p.Pos(call.Pos()), how, "the total length of the dashes may be zero here: "+how)
+	})
+	if n == 0 {
+		r.Anchor("resolveDashes: call of clampModulo")
 	}
 }
